@@ -79,6 +79,16 @@ class Ctx:
     def hyp_seed(self):
         return (self.seed * 1000003 + self.shard * 7919 + 17) & 0x7FFFFFFF
 
+    def run_fixed(self, case, check):
+        """run one enumerated (not generated) case; a violation is recorded instead of raised"""
+        try:
+            check(case)
+        except Violation as v:
+            if v.signature in self.known_signatures:
+                self.stats.known[self.known_signatures[v.signature]] += 1
+            else:
+                self.stats.violations.append({"signature": v.signature, "detail": v.detail, "case": case})
+
     def quick(self):
         return self.tier == "quick"
 
